@@ -329,7 +329,7 @@ func dispatchWithin(j job, watchdog time.Duration) (res jobResult, fatal string)
 	w := pool.get()
 	defer pool.put(w)
 	var first string
-	for attempt := 0; attempt < 2; attempt++ {
+	for attempt := 0; attempt < 3; attempt++ {
 		_ = os.Truncate(w.stderr, 0)
 		resp, st, detail := w.w.Do(j, watchdog)
 		if st != harness.WorkerOK {
@@ -342,24 +342,29 @@ func dispatchWithin(j job, watchdog time.Duration) (res jobResult, fatal string)
 			if err := json.Unmarshal(resp, &res); err != nil {
 				return res, "worker answered with undecodable JSON: " + err.Error()
 			}
+			if first != "" && attempt == 1 && strings.HasPrefix(first, "died:") {
+				// died once, returned once: a third run decides between "intermittent crash" and a
+				// one-off failure of the environment (seen once: Go runtime "found pointer to free object")
+				continue
+			}
 			if first != "" {
-				if strings.HasPrefix(first, "died:") && strings.Contains(first, "fatal error") {
-					return res, "worker process died on the first attempt, not on the second: " + first
-				}
-				res.Note += " [first attempt failed and was not confirmed: " + oneLine(first, 200) + "]"
+				fmt.Printf("note: an attempt of a %s case failed and was not confirmed by two re-runs: %s\n", j.Kind, oneLine(first, 300))
 				res.Classes = append(res.Classes, "unconfirmed-worker-failure")
 			}
 			return res, ""
 		case harness.WorkerDied:
 			d := "died: " + detail
 			if first != "" {
-				return res, "worker process died (twice): " + d
+				return res, fmt.Sprintf("worker process died (in %d of %d runs of this case): %s", 2, attempt+1, d)
 			}
 			first = d
 		case harness.WorkerTimeout:
 			d := "timeout: " + detail
-			if first != "" {
+			if first != "" && strings.HasPrefix(first, "timeout:") {
 				return res, fmt.Sprintf("worker stopped answering twice (watchdog %v each, no polling point reached or native code does not return): %s", watchdog, d)
+			}
+			if first != "" {
+				return res, "worker died, then stopped answering: " + first + " / " + d
 			}
 			first = d
 		}
